@@ -159,6 +159,35 @@ def fam_hier_small(tier: str, rng: random.Random) -> Iterator[dict]:
                 yield make_hist(shape, mopts, [rootinv] + [[]] * (n - 1), kind="fn", tag="small-" + shape)
 
 
+def renamed(hist: dict, old: str, new: str) -> dict:
+    """The same history with member `old` called `new` (e.g. a special method such as __call__)."""
+    import copy
+    h = copy.deepcopy(hist)
+    h["names"] = [new if n == old else n for n in h["names"]]
+    for c in h["cls"]:
+        for m in c["members"]:
+            if m["name"] == old:
+                m["name"] = new
+    for ph in h.get("posthoc", []):
+        if ph.get("name") == old:
+            ph["name"] = new
+    h["tag"] = h["tag"] + "-as-" + new
+    return h
+
+
+def fam_dunder(tier: str, rng: random.Random) -> Iterator[dict]:
+    """Special methods other than the constructors (__call__) inherit contracts and check invariants like any
+    public method: the exhaustive small placements and a sample of the DAG family with the member renamed."""
+    small = list(fam_hier_small(tier, rng))
+    if tier == "quick":
+        small = rng.sample(small, min(len(small), 350))
+    for h in small:
+        yield renamed(h, "f", "__call__")
+    big = [h for h in fam_hier(tier, rng) if all(m["kind"] == "fn" for c in h["cls"] for m in c["members"])]
+    for h in rng.sample(big, min(len(big), 150 if tier == "quick" else 1500)):
+        yield renamed(h, "f", "__call__")
+
+
 def fam_foreign_hier(tier: str, rng: random.Random) -> Iterator[dict]:
     """Overrides that carry foreign functools.wraps decorators above / between / below their contract decorators,
     in hierarchies (the merged contracts must land on the one real checker)."""
